@@ -241,7 +241,7 @@ func RunC08(r *core.Run) {
 	st.Exhaustive = true
 	st.Space = "the 14 method names, their lower-case / first-letter / last-letter case variants and every one-edit neighbour (substitute/insert any byte value, delete, transpose) that is still a token, x 3 line ends, with rotating URI and version tokens"
 	// C: random tokens
-	r.Stage("request-lines/random-tokens", r.Pick(1500000, 20000000), func(w *core.Worker, idx int64) {
+	r.Stage("request-lines/random-tokens", r.Pick(1500000, 200000000), func(w *core.Worker, idx int64) {
 		rr := core.NewRand(r.Seed, 0xC08, 3, uint64(idx))
 		m := string(rr.Bytes(rr.Range(1, 30), tokAlpha))
 		if rr.Intn(3) == 0 {
@@ -259,7 +259,7 @@ func RunC08(r *core.Run) {
 		w.Nontrivial(core.HashStr(m + " " + u + " " + v))
 	})
 	// D: first lines of generated messages (as the message generator writes them)
-	r.Stage("generated-message-first-lines", r.Pick(500000, 8000000), func(w *core.Worker, idx int64) {
+	r.Stage("generated-message-first-lines", r.Pick(500000, 80000000), func(w *core.Worker, idx int64) {
 		rr := core.NewRand(r.Seed, 0xC08, 4, uint64(idx))
 		m := gen.Msg(rr, gen.MsgOpts{MinHdrs: 1, MaxHdrs: 2})
 		line := m.Raw[:m.FLEnd]
@@ -387,7 +387,7 @@ func RunC08(r *core.Run) {
 	st.Exhaustive = true
 	st.Space = fmt.Sprintf("%d hand-enumerated grammar violations x 3 line ends", len(misses)/3)
 	// F: random near misses: take a valid line and break exactly one separator
-	r.Stage("near-misses/random", r.Pick(500000, 8000000), func(w *core.Worker, idx int64) {
+	r.Stage("near-misses/random", r.Pick(500000, 80000000), func(w *core.Worker, idx int64) {
 		rr := core.NewRand(r.Seed, 0xC08, 6, uint64(idx))
 		tok := func(n int) string { return string(rr.Bytes(rr.Range(1, n), tokAlpha)) }
 		m, u, v := tok(8), tok(12), tok(8)
